@@ -154,6 +154,8 @@ geo = "0.27"
 
 def native_replay(scratch, src):
     """-> number of profiles (dev, release) in which the replay test FAILS (= violation reproduces); None on build error"""
+    if src.startswith("#!python"):
+        return python_replay(scratch, src)
     d = os.path.join(scratch.dir, "replay")
     os.makedirs(os.path.join(d, "tests"), exist_ok=True)
     os.makedirs(os.path.join(d, "src"), exist_ok=True)
@@ -178,12 +180,47 @@ def native_replay(scratch, src):
     return fails
 
 
+def python_replay(scratch, src):
+    """Replay through CPython: build the extension module (cdylib, default features) from the scratch copy of the tree,
+    import it as `similari` and run the script. -> 1 if the script fails an assertion (violation reproduces), 0 if it
+    passes, None if the module cannot be built / imported."""
+    d = os.path.join(scratch.dir, "pyreplay")
+    os.makedirs(d, exist_ok=True)
+    env = dict(os.environ)
+    env["CARGO_NET_OFFLINE"] = "true"
+    env.pop("RUSTFLAGS", None)
+    so = os.path.join(d, "similari.so")
+    if not os.path.exists(so):
+        tdir = os.path.join(scratch.dir, "pytarget")
+        p = subprocess.run(["cargo", "build", "--offline", "--lib", "--target-dir", tdir], cwd=scratch.repo, env=env,
+                           stdout=subprocess.PIPE, stderr=subprocess.STDOUT, text=True)
+        lib = os.path.join(tdir, "debug", "libsimilari.so")
+        if p.returncode != 0 or not os.path.exists(lib):
+            log("  python replay: extension module did not build: " + p.stdout[-1500:])
+            return None
+        shutil.copy(lib, so)
+        shutil.rmtree(tdir, ignore_errors=True)
+    with open(os.path.join(d, "replay.py"), "w") as f:
+        f.write(src)
+    p = subprocess.run(["python3", "replay.py"], cwd=d, env=env, stdout=subprocess.PIPE, stderr=subprocess.STDOUT, text=True)
+    if p.returncode == 0 and "REPLAY-OK" in p.stdout:
+        return 0
+    if "AssertionError" in p.stdout:
+        log("  python replay: " + p.stdout.strip().splitlines()[-1][:300])
+        return 1
+    log("  python replay problem: " + p.stdout[-1500:])
+    return None
+
+
 def run_all(scratch, queries, pid, tier, seed, workers=12):
     import engine
     t = time.time()
-    mir = os.path.join(scratch.dir, "similari.mir")
+    sys.path.insert(0, os.path.join(VERIF, "props"))
+    import importlib
+    feats = getattr(importlib.import_module(pid), "MIR_FEATURES", None)
+    mir = os.path.join(scratch.dir, "similari%s.mir" % ("-" + feats if feats else ""))
     try:
-        engine.dump_mir(scratch.repo, mir, os.path.join(scratch.dir, "mirtarget"))
+        engine.dump_mir(scratch.repo, mir, os.path.join(scratch.dir, "mirtarget"), feats)
     except Exception as e:
         res = []
         for q in queries:
